@@ -9,4 +9,6 @@ cd "$ROOT/harness"
 [ -f Cargo.lock ] || cp /repo/Cargo.lock Cargo.lock
 RUSTFLAGS="--cfg memvid_verif --check-cfg cfg(memvid_verif)" CARGO_TARGET_DIR="$ROOT/build/main" \
   cargo build --release --offline 2>&1 | tail -3
+RUSTFLAGS="--cfg memvid_verif --check-cfg cfg(memvid_verif)" CARGO_TARGET_DIR="$ROOT/build/lite" \
+  cargo build --release --offline --no-default-features 2>&1 | tail -3
 echo "setup ok"
